@@ -21,7 +21,7 @@ pub struct Error { _x: u8 }
 pub type Result<T> = core::result::Result<T, Error>;
 #[verifier::external_body]
 pub fn verif_error() -> Error { Error { _x: 0 } }
-#[derive(Clone, Copy)]
+#[derive(Clone, Copy, PartialEq, Eq)]
 pub struct FileId(pub u32);
 // the line map by its contract; the Kani unit checks these contracts on the real LineMap for enumerated documents
 #[verifier::external_body]
@@ -37,13 +37,26 @@ impl LineMap {
     #[verifier::external_body]
     pub fn last_line(&self) -> (r: u32) ensures r == self.last() { unimplemented!() }
 }
+// the file table by its contract - what the vfs unit (contracts/vfs.spec) proves about the real Vfs under its invariant Vfs::wf:
+// a FileId obtained from file_for_uri is a live slab key, and line_map_for_file needs one
+#[verifier::external_body]
+pub struct Url { _x: u8 }
 #[verifier::external_body]
 pub struct Vfs { _x: u8 }
 impl Vfs {
+    pub uninterp spec fn wf(&self) -> bool;
+    pub uninterp spec fn live(&self, file: FileId) -> bool;
+    pub uninterp spec fn known(&self, uri: &Url) -> Option<FileId>;
     pub uninterp spec fn lm(&self, file: FileId) -> LineMap;
     #[verifier::external_body]
-    pub fn line_map_for_file(&self, file: FileId) -> (r: Arc<LineMap>) ensures *r == self.lm(file) { unimplemented!() }
+    pub fn file_for_uri(&self, uri: &Url) -> (r: Result<FileId>) requires self.wf() ensures r is Ok <==> self.known(uri) is Some, r is Ok ==> r->Ok_0 == self.known(uri)->Some_0 && self.live(r->Ok_0) { unimplemented!() }
+    #[verifier::external_body]
+    pub fn line_map_for_file(&self, file: FileId) -> (r: Arc<LineMap>) requires self.live(file) ensures *r == self.lm(file) { unimplemented!() }
 }
+pub struct TextDocumentIdentifier { pub uri: Url }
+pub struct TextDocumentPositionParams { pub text_document: TextDocumentIdentifier, pub position: Position }
+pub struct FilePos { pub file_id: FileId, pub pos: TextSize }
+impl FilePos { pub fn new(file_id: FileId, pos: TextSize) -> (r: Self) ensures r.file_id == file_id, r.pos == pos { FilePos { file_id, pos } } }
 
 // a client position is valid for the line map
 pub open spec fn pos_ok(lm: &LineMap, p: Position) -> bool { p.line <= lm.last() && p.character <= lm.end_col(p.line) }
